@@ -31,6 +31,11 @@ def work(pid):
 with cf.ThreadPoolExecutor(max_workers=int(os.environ.get("SEED_JOBS", "4"))) as ex:
     for pid, out in ex.map(work, sorted(by)):
         for sid, r in out.items():
-            results.setdefault(sid, {})[pid] = dict(r, tier=tier)
+            prev = results.get(sid, {}).get(pid)
+            cur = dict(r, tier=tier)
+            if prev is not None:
+                # keep the history: a change that was missed at first and is caught after strengthening stays visible
+                cur["history"] = (prev.get("history") or []) + [{"detected": prev.get("detected"), "how": prev.get("how")}]
+            results.setdefault(sid, {})[pid] = cur
         json.dump(results, open(resf, "w"), indent=1, sort_keys=True)
 print("done")
